@@ -24,7 +24,7 @@ RULE = ('One case = 2-4 interpreters running generated charts that send events (
 ASSUMPTIONS = ['bind() is only called at step boundaries (the statement does not say whether a target bound during a delivery receives '
                'the event being delivered); detach() is also called from inside callbacks',
                'generated charts per DESIGN §2']
-REQUIRED_COUNTERS = ['sender_steps_checked', 'deliveries_checked', 'steps_with_2plus_bindings_and_2plus_sends', 'detach_inside_callback',
+REQUIRED_COUNTERS = ['threaded_schedules', 'threaded_deliveries_checked', 'sender_steps_checked', 'deliveries_checked', 'steps_with_2plus_bindings_and_2plus_sends', 'detach_inside_callback',
                      'self_detach_inside_callback', 'detach_at_boundary', 'delayed_events_delivered', 'notify_not_forwarded',
                      'own_internal_consumptions', 'cyclic_topologies', 'same_target_bound_twice', 'sends_while_becoming_final']
 TIERS = dict(quick=dict(ticks=70, gen=dict(max_states=9, max_depth=3, max_trans=10)),
@@ -40,6 +40,9 @@ class Node:
 
 
 def run_case(acc, rnd, tier, case):
+    if case % 12 == 11:
+        from .. import threaded
+        return threaded.bound_cycle(acc, rnd, PID)
     T = TIERS[tier]
     n = rnd.choice((2, 2, 3, 4))
     dlog = []           # shared delivery log: (target id, type name, name, data)
